@@ -40,6 +40,10 @@ claims={
   text="Narrow (support structures only): lazy StateID tag algebra (Offset/With*Tag/Is*Tag, safeOffset), onepass Transition packing (constructors and accessors are mutual inverses for next<=MaxStateID), cache clear protocol and row initialisation, isWordByte/checkLookAssertion safety.",
   note="Not applicable part: that PikeVM, backtracker, lazy DFA determinisation/search, one-pass construction and NFA reversal return the reference answer - no contract within reach expresses this without a formal semantics of the compiled NFA.",
   ref="DESIGN 6/C14"),
+ "C16": dict(
+  text="Every Go-level prefilter Find implementation is proved against the closed form of its literal set for all haystacks and offsets: memchr/memmem/digit prefilters return the smallest occurrence >= start or -1; incomplete and (?m)^ line-anchor wrappers preserve the inner prefilter's interface contract (the wrapper loop never steps over a qualifying candidate); Teddy and FatTeddy: verifyBucket reports only real occurrences lying inside the haystack, the scalar paths (findScalar/findMatchScalar) return exactly the first occurrence of any literal and the span of that literal, the SIMD-assisted Find/FindMatch report only real occurrences with end = start+len(literal) <= len(haystack).",
+  note="Assumed: findSIMD (assembly) shape contract - 'never skips' for the vector path of Teddy rests on it; external Aho-Corasick automaton; Tracker.checkEffectiveness (floats). 'Complete => exact span of the originating pattern' needs C17 (not built). Open known finding: Tracker.Find returns -1 when inactive.",
+  ref="DESIGN 6/C16"),
  "C18": dict(
   text="Every Go-level byte-search primitive of package simd (SWAR kernels memchr/2/3/Pair/isASCII, scalar class/digit/table kernels, dispatch wrappers for hasAVX2 true and false, Memmem family, SelectRareBytes) is proved equal to its scalar definition for all haystacks, lengths and needles, with all index/slice/overflow obligations and loop termination; unbounded (loop invariants).",
   note="Assembly kernels (*AVX2) are trusted contracts equal to the scalar definition (not proved; no bounded stand-in registered yet). Trusted: encoding/binary.LittleEndian.Uint64, math/bits.TrailingZeros64, bytes.Equal specs; len<=2^48; govc translation itself.",
@@ -56,7 +60,6 @@ na_reason={
  "C08":"expand/replace/split contracts not built yet",
  "C09":"compile/metadata contracts not built yet",
  "C15":"UTF-8 range compiler contracts not built yet",
- "C16":"prefilter contracts not built yet",
  "C17":"literal Seq algebra contracts not built yet",
  "C19":"specialised searcher contracts not built yet",
 }
